@@ -149,6 +149,44 @@ Theorem C04_mixture_std_collapse : forall (w : list Q) (s : R), ~ sumQ w == 0 ->
 Proof. exact mix_spread_collapse. Qed.
 Print Assumptions C04_mixture_std_collapse.
 
+(** The mixture std rule of one cluster ([mix_var_rule], the variance whose square root is stored) on the statistics of
+    one iteration: always the mean squared deviation around THAT cluster's pre-step mean — "prior standard deviations
+    their dispersion" — and it never raises. *)
+Theorem C04_mixture_std_dispersion : forall (mu : Q) (xs : list Q),
+  xs <> [] ->
+  exists v, mix_var_rule mu xs (map sqr xs) = Ok v /\ v == mean (map (fun x => sqr (x - mu)) xs) /\ 0 <= v.
+Proof. exact mix_var_rule_dispersion. Qed.
+Print Assumptions C04_mixture_std_dispersion.
+
+(** PARTIAL (missing: the guard).  Wherever the plain rule returns a value the mixture rule returns the same, >= tol;
+    wherever the plain rule raises LeaspyConvergenceError (dispersion below tol) the mixture rule stores the collapsed
+    variance instead. *)
+Theorem C04_mixture_std_partial : forall (tol mu : Q) (S1 S2 : list Q) (v : Q),
+  0 <= tol -> ind_std_rule tol mu S1 S2 = Ok v -> mix_var_rule mu S1 S2 = Ok v /\ tol <= v.
+Proof. exact mix_var_rule_partial. Qed.
+Print Assumptions C04_mixture_std_partial.
+
+Theorem C04_mixture_std_collapse_stored : forall (tol mu : Q) (xs : list Q),
+  xs <> [] -> mean (map (fun x => sqr (x - mu)) xs) < tol ->
+  ind_std_rule tol mu xs (map sqr xs) = Collapse /\
+  exists v, mix_var_rule mu xs (map sqr xs) = Ok v /\ 0 <= v < tol.
+Proof. exact mix_var_rule_collapse_stored. Qed.
+Print Assumptions C04_mixture_std_collapse_stored.
+
+(** REFUTED: "a mixture std update leaves a std the next iteration can standardise by" (which the plain rule ensures by
+    raising below tol).  Witness = the state met on the implementation (finding mixture-std:collapse-unguarded): 7
+    individuals all at the cluster's pre-step mean 0 — the plain rule raises, the mixture rule stores std = sqrt 0 = 0,
+    and [(x - m) / 0] of MixtureNormalFamily._nll is undefined for every individual and cluster: from the next M-step on
+    every mixture parameter (probs included: they no longer sum to one) is nan. *)
+Theorem C04_mixture_std_positive_refuted :
+  exists (tol mu : Q) (xs : list Q),
+    0 < tol /\ xs <> [] /\
+    ind_std_rule tol mu xs (map sqr xs) = Collapse /\
+    (exists v, mix_var_rule mu xs (map sqr xs) = Ok v /\ v == 0 /\ std_of (Ok v) = Ok 0%R) /\
+    (forall x m, standardised x m 0 = Undefined).
+Proof. exact mix_var_rule_refuted. Qed.
+Print Assumptions C04_mixture_std_positive_refuted.
+
 (** ** All parameters are updated together from the pre-step state. *)
 Theorem C04_batched : forall (V Stats : Type) (ps : list (mparam V Stats)) (burn : bool) (suff : Stats) (s : pstate V) (j : nat),
   update_parameters V Stats ps burn s suff j =
@@ -215,3 +253,8 @@ Theorem C04_tie_update_trace :
   gen_update_trace_4 = batched_trace 4.
 Proof. exact tie_update_trace. Qed.
 Print Assumptions C04_tie_update_trace.
+
+(** the mixture std rules of the running code do not call the guard (probed with zero-dispersion statistics) *)
+Theorem C04_tie_mix_std_unguarded : gen_mix_std_guarded = false /\ gen_mix_std_burn_guarded = false.
+Proof. exact tie_mix_std_unguarded. Qed.
+Print Assumptions C04_tie_mix_std_unguarded.
